@@ -140,6 +140,8 @@ def _apply_contract_tail(ctx, c, fn, target, ns, ghosts):
         ctx.call_spec(c.setup_spec, ns)
     if c.snapshot_spec is not None:
         ctx.call_spec(c.snapshot_spec, ns)
+    if c.log_entry is not None:
+        ctx.event_log.append(ctx.call_spec(c.log_entry, ns))
     old = types.SimpleNamespace(**{k: ctx.clone(v) for k, v in ns.items()})
     # exceptional outcomes (over-approximated: any declared exception may occur when allowed)
     ncases = 1 + len(c.raises)
